@@ -89,9 +89,8 @@ Fixpoint zm_insert (x : Z) (l : list Z) : list Z :=
 Fixpoint zm_sort (l : list Z) : list Z :=
   match l with [] => [] | x :: tl => zm_insert x (zm_sort tl) end.
 
-(* verifySignatures, entry by entry in that order: empty id, unknown authorizer or a Verify error
-   stop the mint; (true, nil) goes on to the next entry; (false, nil) RETURNS errors.Wrap(nil, ...),
-   which is nil: the whole verification ends there as passed, later entries are not looked at *)
+(* verifySignatures, entry by entry in that order: an empty id, an unknown authorizer, a Verify error
+   or a signature that does not verify stop the mint; (true, nil) goes on to the next entry *)
 Fixpoint zm_verify_loop (reg : list Z) (sigs : list zm_sig) (ids : list Z) : bool :=
   match ids with
   | [] => true
@@ -99,7 +98,7 @@ Fixpoint zm_verify_loop (reg : list Z) (sigs : list zm_sig) (ids : list Z) : boo
       if (id =? 0) || negb (zm_mem id reg) then false else
       match zm_last_res id sigs with
       | ZsError => false
-      | ZsInvalid => true
+      | ZsInvalid => false
       | ZsValid => zm_verify_loop reg sigs tl
       end
   end.
